@@ -8,7 +8,10 @@
 (* A peer message is one of                                                *)
 (*   server side: cer_ok cer_bad cer_noid cer_sec dwr ccr cca ulr rar      *)
 (*                cer_ok_wfail (acceptable CER, the CEA write fails)       *)
-(*   client side: cea_ok cea_fail dwr ccr cca ulr rar                      *)
+(*   client side: cea_ok cea_fail dwr ccr cca ulr rar cer_ok (the peer     *)
+(*                sends a CER of its own on the connection the client      *)
+(*                dialled: processed by nothing)                           *)
+(*   both: ccr_e raa_e = application messages with the E bit set           *)
 (* Step(side, regs, s, m) gives the next state and what must be observed   *)
 (* while the message is processed: application handlers fired, answers     *)
 (* written (command, result code), transport closed.                       *)
@@ -34,7 +37,11 @@ AppMsg(m) == CASE m = "ccr" -> [msg |-> [app |-> 4, code |-> 272, req |-> TRUE],
                [] m = "cca" -> [msg |-> [app |-> 4, code |-> 272, req |-> FALSE], short |-> "CC"]
                [] m = "ulr" -> [msg |-> [app |-> 16777251, code |-> 316, req |-> TRUE], short |-> "UL"]
                [] m = "rar" -> [msg |-> [app |-> 0, code |-> 258, req |-> TRUE], short |-> "RA"]
-IsApp(m) == m \in {"ccr", "cca", "ulr", "rar"}
+               \* the same with the E (error) bit set: an error answer, and a request carrying R+E
+               [] m = "ccr_e" -> [msg |-> [app |-> 4, code |-> 272, req |-> TRUE], short |-> "CC"]
+               [] m = "raa_e" -> [msg |-> [app |-> 0, code |-> 258, req |-> FALSE], short |-> "RA"]
+IsApp(m) == m \in {"ccr", "cca", "ulr", "rar", "ccr_e", "raa_e"}
+CerKinds == {"cer_ok", "cer_bad", "cer_noid", "cer_sec", "cer_ok_wfail"}
 FailCode(m) == CASE m = "cer_bad" -> 5010 [] m = "cer_noid" -> 5012 [] m = "cer_sec" -> 5017
 
 \* wbroken: reserved for a transport whose write side stays broken (never set since messages are
@@ -54,6 +61,7 @@ Step(side, cfg, s, m) ==
   ELSE IF m = "dwr" THEN
        IF s.hs THEN [s |-> s, fired |-> <<>>, wrote |-> IF s.wbroken THEN <<>> ELSE <<[cmd |-> 280, rc |-> 2001]>>, anydwa |-> FALSE]
        ELSE [s |-> s, fired |-> <<>>, wrote |-> <<>>, anydwa |-> TRUE]   \* before the handshake a DWA may or may not be written
+  ELSE IF side = "client" /\ m \in CerKinds THEN Quiet(s)                  \* a CER from the peer it dialled: the client's built-in no-op
   ELSE IF side = "server" THEN
        IF s.hs THEN Quiet(s)                                            \* any CER after the handshake is ignored
        ELSE IF m = "cer_ok_wfail" THEN \* acceptable CER whose CEA the transport refuses: no exchange has succeeded
